@@ -545,6 +545,16 @@ func opV1(a []string) string {
 	if before != after {
 		s += " MUTATED"
 	}
+	if len(vlog.tbs) > 0 {
+		// C04, read off the wire: the verifier was handed bytes to check, so the protected bucket as
+		// received must name its algorithm as a plain integer (or name none, with external data)
+		switch kind, alg := wireAlg(data); {
+		case kind == "int" && cose.Algorithm(alg) == verifier.Algorithm():
+		case kind == "absent" && len(ext) > 0:
+		default:
+			s += " ALG-NOT-ON-WIRE(" + kind + ")"
+		}
+	}
 	return s
 }
 
